@@ -389,7 +389,11 @@ def run(ctx: core.Ctx):
     n_known = 0
     for (d, cmd, pk), was_complete in zip(failing, complete_before):
         evs = [e for e in d.events if not e.startswith("EvApp (OSet")][:60]
-        if cmd[-1] == "killed" and pk and pk[-1][1] == ("PErr", 3169) and was_complete is True:
+        # the recorded finding is specific: every kill of this command arrived while the task waited in drain() behind the
+        # terminal packet; a kill accepted anywhere else after the response was complete (e.g. inside a callback that
+        # follows the OK of COM_CHANGE_USER) is a different violation and is reported
+        kwhere = [x for x in cmd if isinstance(x, str) and x.startswith("@")]
+        if cmd[-1] == "killed" and pk and pk[-1][1] == ("PErr", 3169) and was_complete is True and kwhere and all(w == "@drain" for w in kwhere):
             n_known += 1
             core.report_violation(ctx, "KILL QUERY after the terminal packet of a response was written (final drain / post-response "
                                   "callback pending) appends an ERR to a complete response",
